@@ -61,7 +61,9 @@ func (rt *c19RT) avail(n uint64) (int64, bool) {
 func (rt *c19RT) body(n uint64, ts int64, current bool) string {
 	tm := time.Unix(ts, 0).UTC()
 	if rt.kind == "changesets" {
-		// the number inside the file is one less than the file's name (planet's consistent mistake)
+		// the number inside the file is one less than the file's name (planet's consistent mistake, from file
+		// 2008004 on); the early files carry their own number. Sequence numbers here are small, so every seventh
+		// numbered file is written the early way; the current state.yaml always the late way.
 		zone := "+00:00"
 		if n%2 == 0 {
 			zone = "Z"
@@ -70,7 +72,11 @@ func (rt *c19RT) body(n uint64, ts int64, current bool) string {
 		if n%3 == 0 {
 			frac = ".000000000"
 		}
-		return fmt.Sprintf("---\nlast_run: %s%s %s\nsequence: %d\n", tm.Format("2006-01-02 15:04:05"), frac, zone, n-1)
+		inner := n - 1
+		if !current && n%7 == 3 {
+			inner = n
+		}
+		return fmt.Sprintf("---\nlast_run: %s%s %s\nsequence: %d\n", tm.Format("2006-01-02 15:04:05"), frac, zone, inner)
 	}
 	return fmt.Sprintf("#Sat Jul 16 06:14:03 UTC 2016\ntxnMaxQueried=836439235\nsequenceNumber=%d\ntimestamp=%s\ntxnReadyList=\ntxnMax=836439235\ntxnActiveList=836439008\n",
 		n, strings.ReplaceAll(tm.Format("2006-01-02T15:04:05Z"), ":", "\\:"))
